@@ -152,6 +152,7 @@ fn gen(seed: u64, idx: u64, _tier: Tier) -> Plan {
     plan.params.insert("ip_pool".into(), pool);
     if fmode {
         s.source = if rng.chance(1, 2) { ConfigSource::File } else { ConfigSource::Env };
+        file_layout(&mut rng, &mut s);
         s.client_stats = Some("on".into());
         s.persist_dir = Some("/tmp".into());
         // mostly one or two reports per run; one run in five reports every 1-2 s for a long time
